@@ -31,6 +31,8 @@ class Cfg:
         self.macros = False
         self.rich_params = True
         self.terminator_prob = 0.7
+        self.labels_top_level_only = False   # label definitions only between the top-level statements of a routine
+        self.forward_jumps_only = False      # jumps/calls go to later top-level labels of the routine or to other routines
         self.small_alphabet = False
         for k, v in kw.items():
             setattr(self, k, v)
@@ -174,7 +176,7 @@ class Gen:
     def stmt(self, depth: int, in_loop: bool, in_case: bool) -> list:
         """returns a list of statements (a label definition may be put in front)"""
         pre: list = []
-        if self.c.labels and self.pending and self.r.random() < 0.15:
+        if self.c.labels and self.pending and self.r.random() < 0.15 and not (self.c.labels_top_level_only and depth < self.c.max_depth):
             pre.append([A("label"), self.pending.pop()])
             self.count("label")
         x = self.r.random()
@@ -264,6 +266,24 @@ class Gen:
             cases[-1][-1] = self.block(depth - 1, in_loop, True, allow_empty=False)
         return [A("switch"), h, cases]
 
+    def routine_body_forward(self, own_labels: list[str], foreign_labels: list[str]) -> list:
+        """top-level labels at fixed positions; jumps only to labels defined later or in other routines"""
+        n = self.r.randint(max(1, len(own_labels)), self.c.max_block + 2 + len(own_labels))
+        positions = sorted(self.r.randint(1, n) for _ in own_labels)   # label k is defined before statement positions[k]
+        body: list = []
+        for i in range(n + 1):
+            for k, pos in enumerate(positions):
+                if pos == i:
+                    body.append([A("label"), own_labels[k]])
+                    self.count("label")
+            if i == n:
+                break
+            self.all_labels = [own_labels[k] for k, pos in enumerate(positions) if pos > i] + foreign_labels
+            self.pending = []
+            body.extend(self.stmt(self.c.max_depth, False, False))
+        body.append([A("ctrl"), A(self.r.choice(["return", "end", "hold"]))])
+        return body
+
     def routine_body(self) -> list:
         body: list = []
         n = self.r.randint(1, self.c.max_block + 2)
@@ -295,6 +315,10 @@ class Gen:
             self.r.shuffle(self.pending)
             if i > 0 and self.r.random() < 0.08 and not per_routine_labels[i]:
                 alias, body = True, []
+            elif self.c.forward_jumps_only:
+                foreign = [l for j, ls in enumerate(per_routine_labels) if j != i for l in ls]
+                alias, body = False, self.routine_body_forward(per_routine_labels[i], foreign)
+                self.all_labels = [l for ls in per_routine_labels for l in ls]
             else:
                 alias, body = False, self.routine_body()
             if coro:
